@@ -237,7 +237,7 @@ def build_family(tier, seed):
             nvals = sum(min(dict(a["indices"][0][0])[s[0]], dict(a["indices"][1][0])[s[1]]) for s in a["present"])
             if 1 <= nvals <= (4 if not thorough else 5) and len(a["present"]) <= 3:
                 mats.append((a, nvals))
-        mats, _ = fam.thin(mats, 22 if not thorough else 400, seed)
+        mats, _ = fam.thin(mats, 22 if not thorough else 60, seed)
         cases = []
         for k, (a, nvals) in enumerate(mats):
             for mode in (1, 2, 3, 4, 5, 6):
